@@ -12,8 +12,9 @@ _m('C01',
    'representation-invariant check on the CFG (heap discipline), who-may-write, exhaustive guard evaluation of __cmp__',
    'Decides, from the source, that every mutation of the heap-backed list keeps or restores the heap invariant on every '
    'path, that the pushed key is (time, -priority, id) and readers use the same key, that key fields are immutable, ids '
-   'strictly increase, the observers agree with the stored set, and that SimEvent comparisons are the lexicographic strict '
-   'total order (all 27 orderings). By induction this covers every history; no execution is sampled.',
+   'strictly increase from one counter shared by all event classes (a classmethod increment reached through an instance '
+   'would fork it per subclass), the observers agree with the stored set, and that SimEvent comparisons are the '
+   'lexicographic strict total order (all 27 orderings). By induction this covers every history; no execution is sampled.',
    'Trusts the documented heapq/list contracts; assumes event times are totally ordered (NaN excluded by C02); user-supplied '
    'event-list subclasses outside the package are not analysed.',
    'DESIGN.md §3 C01')
@@ -35,7 +36,8 @@ _m('C17',
    'Decides for every declared unit of every quantity class: base unit has factor exactly 1.0, display table maps '
    'declared units to strings and aliases share a factor, descriptions cover the units, factors are positive finite '
    'floats, no duplicate literal keys, ~190 compound units agree with the factors of their components, public names '
-   'exist and are all exported, and __new__/displayvalue/as_unit/_val move values through the table exactly once. '
+   'exist and are all exported, __new__/displayvalue/as_unit/_val move values through the table exactly once, and no '
+   'container in a class body is mutated through instances (no cross-class caches). '
    'Exhaustive over the tables. Does not decide "display value equals the original up to rounding" (floating point).',
    'Trusts ast/tokenize; compound-unit readings are those parsable into declared units with the right dimension; '
    'units whose names do not parse are not cross-checked.',
@@ -83,7 +85,9 @@ _m('C05',
    'have on the run loop, and compares it with the property (continue: none; pause: exactly run_state := STOPPING, loop '
    'head re-reads the state); that the handler catches every Exception; that with exception edges included every popped '
    'event is still executed exactly once in order; that step() fires STOP and returns to STOPPED on every path and that '
-   'its handler cannot itself raise. Covers every failing handler and every strategy at once.',
+   'its handler cannot itself raise; that the strategy the handler consults is read when the failure is handled (not a copy '
+   'taken before the loop); that the wrapper and the handler agree on the exception class. Covers every failing handler '
+   'and every strategy at once.',
    'SimEvent.execute is the only place handlers are called (checked); effects are classified syntactically (field '
    'writes, container mutations, state-changing self calls, exit calls).',
    'DESIGN.md §3 C05')
@@ -105,7 +109,8 @@ _m('C08',
    'notification cannot skip, duplicate or reorder deliveries), that duplicates are never stored, removals are harmless '
    'when absent, emptied lists are dropped, the four unsubscribe modes do what is documented, timed and untimed paths '
    'agree, refused calls change nothing, and that Event/TimedEvent/EventType validate payload metadata and timestamps '
-   'with the documented nesting. Holds for every history because each operation preserves the list discipline.',
+   'with the documented nesting, and that no listener container lives in a class body (shared by all producers). Holds '
+   'for every history because each operation preserves the list discipline.',
    'Trusts list/dict ordering contracts; listener objects\' own notify() behaviour is outside the analysed program.',
    'DESIGN.md §3 C08')
 
@@ -134,13 +139,15 @@ _m('C07',
    'DESIGN.md §3 C07')
 
 _m('C12',
-   'ownership / escape analysis of the generator field; who-may-call rule for random.*; exactly-one-draw path rule on the CFG; wiring shape checks',
+   'ownership / escape analysis of the generator field; who-may-call rule for random.*; exactly-one-draw path rule on the CFG; wiring shape checks; symbolic affine bounds for the integer range',
    'Decides that each stream owns a private Random() created in its constructor that never escapes or is re-bound, that '
    'no module-level random function is used in streams.py/distributions.py (streams cannot influence each other), that '
    'every next_bool/next_float/next_int consumes exactly one underlying draw on every path (equally seeded streams stay '
    'aligned under every interleaving of draw kinds), and that set_seed/reset/save_state/restore_state are wired to the '
-   'current seed and the generator state. Value ranges of the draws (stdlib contract, float rounding of '
-   'lo + floor((hi-lo+1)u)) are not decided.',
+   'current seed and the generator state; that next_float is the generator draw itself, and, by symbolic affine bounds '
+   'over lo and hi, that next_int(lo, hi) lies in [lo, hi] with both ends reachable (cases hi == lo and hi > lo) and that '
+   'the bounds enter float arithmetic only through their exact difference. Float rounding of (hi-lo+1)*u for ranges wider '
+   'than 2**53 is not decided.',
    'Trusts random.Random (seed determines sequence; getstate/setstate are complete).',
    'DESIGN.md §3 C12')
 
@@ -150,7 +157,8 @@ _m('C13',
    'or configured seed list, r and constants (no hash()/id()/time/random in the slice), that seed-table lookups are '
    'guarded so unlisted streams reach the fallback updater, that update_seed keeps no state (order independence) and '
    'the driver calls it once per stream, and that ill-typed, negative or too large replication numbers are refused '
-   'before the stream is touched (raise-set over (r ? 0) x (r ? len)).',
+   'before the stream is touched (raise-set over (r ? 0) x (r ? len)); that every accepted update re-seeds exactly once; '
+   'that no seed table lives in a class body where all experiments of a process would share it.',
    'Calls inside the slice that are neither known-deterministic nor known-varying are listed in the evidence, not '
    'flagged.',
    'DESIGN.md §3 C13')
@@ -162,9 +170,9 @@ _m('C18',
    'default value / read-only flag / key have a single writer, that no statement stores to a setter-less property, '
    'that a parameter is handed to its parent only after its whole constructor chain has validated, that the map '
    'refuses duplicate keys before inserting and keeps children in stable display order, that the ordering operators '
-   'follow display_priority, and that refused set_value/add calls change nothing. Holds for every sequence of '
-   'set-value attempts because each accepted store is guarded. Dotted-key retrieval/removal on arbitrary trees is not '
-   'decided.',
+   'follow display_priority, that refused set_value/add calls change nothing, that get/remove recurse with everything '
+   'after the first period, and that no child container lives in a class body. Holds for every sequence of set-value '
+   'attempts because each accepted store is guarded.',
    'Guard comparison is on normalised atoms (isinstance sets, chained comparisons, membership); unrecognised guard forms '
    'fall back to text equality.',
    'DESIGN.md §3 C18')
@@ -175,9 +183,12 @@ _m('C09',
    'variants, can raise an implicit arithmetic error (division by zero, pow/sqrt/inv_cdf domain) for any admitted '
    'observation history: every arithmetic sink is proved from guards and inferred field invariants; that each getter '
    'returns NaN exactly below its documented observation threshold (0..4 and >=5 observations, 11 getter variants); '
-   'that rejected observations change nothing; that initialize resets every accumulator; that Counter is sum and '
-   'count of its increments. Numerical accuracy of the moment recurrences is not decided.',
-   'Axioms m2 >= 0, m4 >= 0 (numerical facts of the recurrences); real-number semantics without overflow/rounding; '
+   'that rejected observations change nothing (float conversion before the first write); that initialize resets every '
+   'accumulator; that on every accepting path count/sum/min/max are updated in the right shape (def-use DAG; after the '
+   'first observation min and max are the observation whatever the sentinel) and the mean moves by one convex step (which '
+   'justifies m2 >= 0); that Counter is sum and count of its increments. Numerical accuracy of the moment recurrences is '
+   'not decided.',
+   'Axiom m4 >= 0 (numerical fact of the recurrence; m2 >= 0 is discharged by the convex-update rule); real-number semantics without overflow/rounding; '
    'stdlib math domains trusted.',
    'DESIGN.md §3 C09')
 
@@ -200,20 +211,23 @@ _m('C14',
    'instance\'s own stream or from inner distributions that _set_stream rebuilds with the new stream (old stream '
    'unreachable after re-pointing), that cached draw state is invalidated on re-pointing, that no class or module '
    'state is shared between instances, and that each of the 41 quantity wrappers builds the quantity it is named '
-   'after. Exact upper bounds for uniform/triangular/beta, termination of rejection loops and overflow are not '
-   'decided; equality of twin draws follows from these rules plus C12.',
+   'after; DistUniform.draw() in [lo, hi) by symbolic affine bounds under the constructor\'s ordering guard. Exact upper '
+   'bounds for triangular/beta, termination of rejection loops and overflow are not decided; equality of twin draws '
+   'follows from these rules plus C12.',
    'Parameters finite; real-number semantics; StreamInterface ranges assumed (C12 decides wiring only); two hand-proved '
    'range facts listed in the evidence.',
    'DESIGN.md §3 C14')
 
 _m('C15',
-   'numeric abstract interpretation of every density / probability / cdf function with a free argument; support table evaluated under order facts; guard checks for the inverse functions',
+   'numeric abstract interpretation of every density / probability / cdf function with a free argument; support table evaluated under order facts; guard checks for the inverse functions; exact rational-function algebra for cdf/inverse identities',
    'NARROW CLAIM: decides evaluability (no arithmetic error for any argument), non-negativity of every density and '
    'probability on every return path, that every reachable return outside the documented support is exactly 0 (cdf: 0 '
-   'below, 1 above) for all 17 bounded supports, and that the inverse functions guard their domains. It does NOT decide '
-   'the statistical core of the property (samples follow the density, normalisation, monotone and mutually inverse '
-   'cdf/inverse cdf to the documented accuracy): those are statements about numerical values beyond any sound static '
-   'argument in reach.',
+   'below, 1 above) for all 17 bounded supports, that the inverse functions guard their domains, and -- by exact '
+   'rational-function algebra over erf/erf_inv/exp/log atoms with constructor-defined fields substituted -- that '
+   'cumulative_probability and inverse_cumulative_probability of Normal, truncated Normal and LogNormal are mutually '
+   'inverse real functions on every computed return path. It does NOT decide the rest of the statistical core (samples '
+   'follow the density, normalisation, numerical accuracy of the inverse): statements about numerical values beyond any '
+   'sound static argument in reach.',
    'Supports transcribed from the docstrings into the checker; finite arguments; real-number semantics.',
    'DESIGN.md §3 C15')
 
